@@ -12,7 +12,7 @@ CONSTANTS
   MaxInstr = 30
   MaxTx = 8
   SupplyCap = 12
-  DataVals = {2}
+  DataVals = {7, 8}
   InitLedgers <- InitFNU
   FailOdds = 4
   EndOdds = 3
